@@ -122,7 +122,10 @@ def min_sum(sum):
             # in double precision, whatever the precision of the data (while
             # the dendrogram is being computed the values are Python floats)
             values = values.astype(float)
-        return np.nansum(values) >= sum
+        # A structure stores its pixels in another order once it has been
+        # merged or indexed, and a floating-point sum depends on the order:
+        # add the values in sorted order
+        return np.nansum(np.sort(values)) >= sum
     return result
 
 
